@@ -196,6 +196,12 @@ def enum_scripts(tier):
         [["sub"], ["open"], ["adv", 3], ["call", "none"], ["adv", 30], ["adv", 100]],
         [["open"], ["adv", 0.3], ["soon"], ["adv", 2], ["zc", "same"], ["adv", 50], ["call", "5"], ["adv", 120]],
     ]
+    # shutdown() suspended in its own awaits (a close() that races with a user is simply a pairing used again) while another user of the pairing (a poll, a subscribe, a discovery update) gets going
+    for kind in ("shutdown",):
+        for racer in ("call", "open", "sub", "zc"):
+            yield {"hosts": ["main"], "script": ["ok", "ok", "ok"], "ops": [["open"], ["adv", 1], [kind, "racing", racer], ["adv", 100]]}
+            yield {"hosts": ["main"], "script": ["refused", "refused", "ok", "ok"], "ops": [["call", "0.1"], ["adv", 0.3], [kind, "racing", racer], ["adv", 100]]}
+            yield {"hosts": ["dead"], "script": [], "ops": [["call", "0.1"], ["adv", 2], [kind, "racing", racer], ["adv", 100]]}
     # the library itself gives a session up after a reply it cannot use; nothing else touches the pairing afterwards
     for kind in ("text", "bytes"):
         for opn in (["sub"], ["sub", [[2, 10]]]):
